@@ -35,6 +35,8 @@ def parseAddr (s : String) : Option (Fam × Nat) :=
     let a ← hexNat h
     let f ← (if fam == "4" then some Fam.v4 else if fam == "6" then some Fam.v6
              else if fam == "m" then some Fam.mapped else none)
+    -- a 16-octet address inside ::ffff:0:0/96 IS the IPv4-mapped form (`netip.Addr.Is4In6`)
+    if f == Fam.v6 && a / 2 ^ 32 == 0xffff then some (Fam.mapped, a % 2 ^ 32) else
     some (f, a)
   | _ => none
 
@@ -167,7 +169,7 @@ def step (st : State) (w : List String) : State × String :=
       -- peer; with both present the allowed one is answered and the denied one is not
       let verdicts := ps.map fun (f, v) => aclNext acl false f v
       let overlap := if verdicts.contains true && verdicts.contains false then "tf" else "-"
-      (st, s!"udp={lo} tcp={lo} tcpp={pipelined} udpx={lo} doh={doh} overlap={overlap}")
+      (st, s!"udp={lo} tcp={lo} tcpp={pipelined} udpx={lo} doh={doh} overlap={overlap} raw={doh}")
     | _, _ => (st, "bad-op")
   | ["chain", "run", scs] =>
     match (scs.splitOn ";").mapM parseScript with
